@@ -16,7 +16,7 @@ HARNESS = os.path.join(VERIF, "harness")
 CORPUS_PY = os.path.join(VERIF, "corpus", "py")
 QUERIES = os.path.join(VERIF, "corpus", "queries.json")
 TSGV = os.path.join(WORK, "target", "debug", "tsgv")
-EVIDENCE = os.path.join(VERIF, "evidence")
+EVIDENCE = os.environ.get("VERIF_EVIDENCE_DIR") or os.path.join(VERIF, "evidence")
 KNOWN = os.path.join(VERIF, "KNOWN_FINDINGS.json")
 
 TOOL_ERROR = 2
